@@ -259,7 +259,7 @@ def jobs(tier):
         out.append({"name": f"validate/m{m}c{c}B{B}", "target": "checks.c14:job_validate", "kwargs": dict(m=m, c=c, B=B), "timeout": 280 if q else 3000})
     pairsets = [([(0, 1)], [(2, 3)]), ([(3, 1)], [(1, 0)]), ([(0, 2), (2, 3)], []), ([], [(1, 3), (0, 2)]),
                 # one sample in the same slot of several pairs of one kind (accumulation into one row)
-                ([(0, 1), (0, 2)], []), ([], [(3, 1), (2, 1)]), ([(0, 1), (0, 2), (0, 3)], [(1, 2), (3, 2)])]
+                ([(0, 1), (0, 2)], []), ([], [(3, 1), (2, 1)]), ([(0, 1), (0, 2)], [(0, 3), (1, 3)])]
     if not q:
         pairsets += [([(0, 1), (2, 3)], [(1, 2)]), ([(2, 0)], [(3, 2), (1, 0)])]
     for ml, cl in pairsets:
